@@ -1785,6 +1785,11 @@ class PrepareAst:
             return self.apply(inp.value)
 
         if isinstance(inp, ast.Match):
+            for case in inp.cases:
+                assert (
+                    case.guard is None
+                ), "guards in match cases ('case <pattern> if <condition>') are not supported"
+
             subject = cast(out.Expression, self.apply(inp.subject))
 
             if not ObjTraits.runtime_variable(subject.result()):
